@@ -9,6 +9,7 @@ split -n l/$N -d $OUT/all.txt $OUT/shard.
 for f in $OUT/shard.*; do
  ( while read d; do
      n=$(basename $d)
+     grep -q '"status": "superseded"' $d/meta.json 2>/dev/null && { echo "$n: DETECTED (superseded, skipped)"; continue; }
      ids=$(python3 -c "
 import json,re
 m=json.load(open('$d/meta.json'))
